@@ -45,6 +45,10 @@ CHECKS["C12"] = dict(engine="E6", technique="runtime monitoring: generated TTL /
              text="Exploration of the wire-reachable value domains (10^5 cases per run) with round-trip oracles, plus a store leg in a child process that offers frames around serde_json's 128-level recursion limit and checks that whatever was accepted is read back identically by both read paths before and after a reopen.",
              note="Trusted base: Rust PartialEq on TTL/ReadOptions/Frame; the float domain is restricted to exactly re-parsable values (DESIGN §9).", ref="§7 E6, §8 C12")
 
+CHECKS["C13"] = dict(engine="E4", technique="runtime monitoring: generated valid and malformed HTTP request sequences over a raw client against the real api::serve; differential comparison with a reference model (status class, body, store state) after every request",
+             text="Exploration: every route with valid and invalid ids, contexts, TTLs, options, xs-meta payloads and bodies, NDJSON and SSE renderings, follow streams fed from other connections, client aborts and broken HTTP; after each request a complete response, the model's status class, the route-specific body, store == model and a live server are required. Three 5xx-for-client-error answers are listed as known findings and reproduced deterministically on every run.",
+             note="Trusted base: the Appendix-B model, the harness's own HTTP/1.1 parser, the E1 store model for state comparison. Held on the request sequences sent.", ref="§7 E4, §8 C13, App. B")
+
 NOT_YET = {
 }
 
@@ -82,6 +86,7 @@ def main():
         "engines": [
             {"name": "E1", "path": "harness/src/e1.rs", "serves_properties": ["C01", "C05", "C07", "C08", "C09", "C20"], "kind_free_text": "store-history explorer vs reference model (child-process sessions)"},
             {"name": "E6", "path": "harness/src/e6.rs", "serves_properties": ["C12"], "kind_free_text": "codec round-trip generators + store poison leg"},
+            {"name": "E4", "path": "harness/src/e4.rs", "serves_properties": ["C13", "C06", "C10", "C20"], "kind_free_text": "HTTP differential tester (raw client over the unix socket)"},
             {"name": "E2", "path": "harness/src/e2.rs", "serves_properties": ["C02", "C03", "C11"], "kind_free_text": "in-process concurrency stress with sync-point schedule perturbation; history checkers at the client boundary"},
         ],
         "checks": checks,
